@@ -251,8 +251,8 @@ class Ctx:
     def _explain_source_pin(self):
         """name the functions whose statements differ from the pinned ones"""
         try:
-            out = self.coq_eval("source_diff", "From SX Require Import Model.%sSourceShape.\n"
-                                "Definition D := Eval vm_compute in shape_diff.\nPrint D." % self.pid, timeout=300)
+            out = self.coq_eval("source_diff", "From Coq Require Import String.\nFrom SX Require Import Model.%sSourceShape.\n"
+                                "Open Scope string_scope.\nDefinition D := Eval vm_compute in shape_diff.\nPrint D." % self.pid, timeout=300)
             names = re.findall(r'"([^"]+)"', out)
             if names:
                 what, detail = self.broken[-1]
